@@ -107,6 +107,23 @@ theorem equilibrium_accept_implies_dimension [CharZero α] (q : Quantity α) (np
   · exact hc.1
   · simp [hc] at h
 
+/-- **Inactive species do not enter (rate constants).** For a reaction with inactive (parenthesised) reactants / products the
+    required dimension is `concentration^(1−order)/time` with `order` = the sum over the ACTIVE reactants only, whatever the
+    inactive dictionaries contain. -/
+theorem accept_iff_dimension_active_only [CharZero α] (q : Quantity α) (hq : q.unit.WF) (s : Stoich) :
+    (reactionCheckS (.qty q) s = .ok () ↔ q.unit.dims = rateConstDims ((s.reac.sum : ℕ) : ℤ)) ∧
+    ∀ ir ip, reactionCheckS (.qty q) { s with inactReac := ir, inactProd := ip } = reactionCheckS (.qty q) s :=
+  ⟨(accept_iff_dimension q hq s.order).1, fun _ _ => rfl⟩
+
+/-- **Inactive species do not enter (equilibrium constants).** An accepted unit-carrying equilibrium constant has the dimension
+    `concentration^(Σprod − Σreac)` with both sums over the ACTIVE species only: `H+ + OH- = (H2O)` requires `1/M²`, not `1/M`;
+    changing the inactive dictionaries never changes the verdict. -/
+theorem equilibrium_accept_implies_dimension_active_only [CharZero α] (q : Quantity α) (s : Stoich)
+    (h : equilibriumCheckS (.qty q) s = .ok ()) :
+    q.unit.dims = Dims.smul (((s.prod.sum : ℕ) : ℤ) - ((s.reac.sum : ℕ) : ℤ)) concDims ∧
+    ∀ ir ip, equilibriumCheckS (.qty q) { s with inactReac := ir, inactProd := ip } = .ok () :=
+  ⟨equilibrium_accept_implies_dimension q s.nprod s.order h, fun _ _ => h⟩
+
 /-- **The equimolar boundary.** For `Σprod = Σreac` (e.g. `A + B = C + D`) the expected unit is the dimensionless quantity
     `molar ** 0` (not the integer 1): an accepted unit-carrying constant is dimensionless — `3 mol/m³`, `3 /s`, `3 mM`, whose
     simplified units have magnitude 1, are refused like `3 M` or `3 /min`. -/
@@ -377,6 +394,12 @@ example : odeRhs exampleReg [.qty ⟨3, ⟨1/60, [0, 0, -1, 0, 0, 0, 0]⟩⟩] [
 example : equilibriumCheck (.qty ⟨3, ⟨1, [-3, 0, 0, 0, 0, 0, 1]⟩⟩ : PyVal Rat) 2 2 = .error .valueError := by decide +kernel
 example : equilibriumCheck (.qty ⟨3, ⟨1, [0, 0, -1, 0, 0, 0, 0]⟩⟩ : PyVal Rat) 2 2 = .error .valueError := by decide +kernel
 example : equilibriumCheck (.qty ⟨3, ⟨1, Dims.zero⟩⟩ : PyVal Rat) 2 2 = .ok () := by decide +kernel
+
+/-- `H+ + OH- = (H2O)`: `K = 1e14 /M²` accepted, `K = 1e14 /M` refused (the inactive product does not count) -/
+example : equilibriumCheckS (.qty ⟨100000000000000, ⟨1/1000000, [6, 0, 0, 0, 0, 0, -2]⟩⟩ : PyVal Rat) ⟨[1, 1], [], [], [1]⟩ = .ok () := by
+  decide +kernel
+example : equilibriumCheckS (.qty ⟨100000000000000, ⟨1/1000, [3, 0, 0, 0, 0, 0, -1]⟩⟩ : PyVal Rat) ⟨[1, 1], [], [], [1]⟩ =
+    .error .valueError := by decide +kernel
 
 end ChemModel.C10
 
